@@ -32,7 +32,7 @@ def log(msg):
 
 
 def tla_set(items):
-    return "{" + ",".join(json.dumps(x) if isinstance(x, str) else (str(x).upper() if isinstance(x, bool) else str(x)) for x in items) + "}"
+    return "{" + ",".join(tla_val(x) for x in items) + "}"
 
 
 def tla_val(v):
@@ -110,7 +110,7 @@ def run_tlc(module, consts, invariants=(), name=None, workers=8, timeout=1800, e
 def session_consts(**over):
     """Constants of spec/MC_Session.tla; defaults = the honest session over all 38 base patterns."""
     c = dict(FullRollback=True, PatSet=ALL_PATTERNS, PskMode="none", PubLens=[32, 65], InitPads=[True, False],
-             Profiles=["small"], Variants=["tr", "sl"], FixedEs=[False], TrafficMode="mixed",
+             Profiles=["small"], BufModes=["big"], Variants=["tr", "sl"], FixedEs=[False], TrafficMode="mixed",
              FaultBudget=0, FaultKinds=["wbuf", "wmax", "turn", "ralt", "rtrunc", "rext", "rstale", "routbuf"],
              LatePsk=False, TamperBudget=0, Emit=True)
     c.update(over)
